@@ -68,6 +68,8 @@ type Translator struct {
 	scanFn    func(fn *ssa.Function, blocks map[*ssa.BasicBlock]bool, depth int)
 	ghosts         map[string]string
 	reflectOf      map[string]*Val
+	protected      []string
+	appendView     bool
 	autoRecvNonNil bool
 	safeOnly       bool
 }
@@ -677,6 +679,10 @@ func (fc *fctx) enterBlock(b *ssa.BasicBlock) bool {
 }
 
 func (tr *Translator) havocAll() {
+	var prot []string
+	for _, a := range tr.protected {
+		prot = append(prot, eq("(obase a)", a))
+	}
 	for _, c := range append([]string{}, tr.u.comps...) {
 		if c == "ALLOC" {
 			old := tr.cur.get(tr.u, "ALLOC")
@@ -684,8 +690,80 @@ func (tr *Translator) havocAll() {
 			tr.fact("(>= " + n + " " + old + ")")
 			continue
 		}
-		tr.havocComp(c)
+		old := tr.cur.get(tr.u, c)
+		n := tr.havocComp(c)
+		// local variables whose address never leaves the function keep their contents across any call
+		if len(prot) > 0 && strings.HasPrefix(tr.u.compSort[c], "(Array Int ") && strings.HasPrefix(c, "M") && !strings.HasPrefix(c, "MD_") && !strings.HasPrefix(c, "MV_") && c != "MLen" {
+			tr.fact(fmt.Sprintf("(forall ((a Int)) (! (=> %s (= (select %s a) (select %s a))) :pattern ((select %s a))))", or(prot...), n, old, n))
+		}
 	}
+}
+
+// leaks reports whether the address of a local allocation may become known to code outside the
+// function being translated (stored, boxed, captured, or passed to a call that is not inlined).
+func (tr *Translator) leaks(a *ssa.Alloc) bool {
+	seen := map[ssa.Value]bool{}
+	var visit func(v ssa.Value) bool
+	visit = func(v ssa.Value) bool {
+		if seen[v] {
+			return false
+		}
+		seen[v] = true
+		refs := v.Referrers()
+		if refs == nil {
+			return true
+		}
+		for _, ins := range *refs {
+			switch x := ins.(type) {
+			case *ssa.Store:
+				if x.Val == v {
+					return true
+				}
+			case *ssa.FieldAddr, *ssa.IndexAddr, *ssa.ChangeType, *ssa.Slice:
+				if visit(ins.(ssa.Value)) {
+					return true
+				}
+			case *ssa.Phi:
+				if visit(x) {
+					return true
+				}
+			case *ssa.UnOp, *ssa.Return, *ssa.DebugRef, *ssa.BinOp, *ssa.If:
+				// reading through the pointer, returning or comparing it does not expose it to a callee
+			case *ssa.MakeInterface, *ssa.MakeClosure, *ssa.MapUpdate, *ssa.Convert, *ssa.ChangeInterface, *ssa.TypeAssert:
+				return true
+			case ssa.CallInstruction:
+				cc := x.Common()
+				if _, ok := cc.Value.(*ssa.Builtin); ok {
+					continue
+				}
+				callee := cc.StaticCallee()
+				if callee == nil {
+					return true
+				}
+				key := fnKey(callee)
+				if callee.Pkg == tr.spkg {
+					if c, ok := tr.contracts.Funcs[key]; ok {
+						if c.Assigns == nil && !c.Pure {
+							return true
+						}
+						continue
+					}
+					continue // inlined: its own instructions are translated, not havocked
+				}
+				if externals[callee.String()] != nil {
+					continue
+				}
+				if c, ok := tr.contracts.Exts[callee.String()]; ok && (c.Assigns != nil || c.Pure) {
+					continue
+				}
+				return true
+			default:
+				return true
+			}
+		}
+		return false
+	}
+	return visit(a)
 }
 
 func (fc *fctx) contractClauses(kind string, loop int) []*Clause {
